@@ -30,7 +30,8 @@ MANIFEST = {
             "- D5 chunked and in-place incremental AEAD and sender / receiver sessions on a reused state equal "
             "the one-shot specification result and D6 the incremental hash / XOF / PRF / KMAC / KDF / HMAC / HKDF "
             "interfaces give the bytes of the library's own one-shot call for a spread of partitions of input and "
-            "output; all partitions of all lengths are not decided",
+            "output, D7 XOF copies taken while absorbing or squeezing continue like the original and a re-initialised "
+            "state behaves like a fresh one (bounded shapes, all data values); all partitions of all lengths are not decided",
     "note": "trusted: clang lowering, irdump; D3 treats two accesses as the same position when they use the "
             "same index expression / parallel loop pointers and overlapping constant offsets",
     "technique": "must-define dataflow, call delegation matching, ordered access-pair analysis on the CFG "
